@@ -83,6 +83,11 @@ const VALID_OPS: &[&str] = &[
     "unitconvert xy_in=us-ft xy_out=m",
     "axisswap order=2,1",
     "adapt from=neuf_deg to=enuf_gon",
+    "geo:in | curvature mean",
+    "geo:in | latitude geocentric | geo:out",
+    "geo:in | tmerc lat_0=49 lon_0=-2 k_0=0.9996012717 x_0=400000 y_0=-100000 ellps=airy",
+    "dms",
+    "geo:in | helmert x=1 dx=1 t_epoch=2000 | geo:out",
 ];
 
 const INVALID_OPS: &[&str] = &[
